@@ -29,6 +29,11 @@ def h16(c):
     return hashlib.sha256(c.encode("utf-8", "surrogatepass")).hexdigest()[:16]
 
 
+def same_signature(sig, pattern, level, is_regex):
+    """the stored signature detects what the given one detects: same pattern text, same kind (substring / regex), same level"""
+    return sig.pattern == pattern and sig.level == level and sig.is_regex == is_regex
+
+
 invariant("Membrane", "rate-window-bounded", "self.rate_limit is None or len(self._request_times) <= max(self.rate_limit, 0)")
 
 SIG_LOOP = "for sig in self.signatures"
@@ -70,10 +75,11 @@ contract(TM + ".filter", "C10", params={"signal": "obj:Signal"},
          })
 
 contract(TM + ".learn_threat", "C10", raises=["error"],
-         ensures={"learned-is-scanned": "implies(self.enable_adaptive, pattern in self._learned_patterns and self._learned_patterns[pattern].level == level)",
+         ensures={"learned-is-scanned": "implies(self.enable_adaptive, pattern in self._learned_patterns and same_signature(self._learned_patterns[pattern], pattern, level, is_regex))",
                   "memory-kept": "implies(True, len(self._blocked_hashes) == len(old(self)._blocked_hashes))"})
 contract(TM + ".import_antibodies", "C10", params={"antibodies": "list:obj:ThreatSignature"}, raises=[],
-         loops={"for ab in antibodies": {"invariant": ["True"], "step": {"imported-is-scanned": "ab.pattern in self._learned_patterns"},
+         loops={"for ab in antibodies": {"invariant": ["True"], "step": {"imported-is-scanned": "ab.pattern in self._learned_patterns and "
+                                                                                                "same_signature(self._learned_patterns[ab.pattern], ab.pattern, ab.level, ab.is_regex)"},
                                          "property_level": ["imported-is-scanned"]}},
          ensures={})
 contract(TM + ".set_threshold", "C10", raises=[],
